@@ -174,3 +174,68 @@ package config
 //@ ensures [compiled-from-the-current-list] !hooksNeedCompile && imp(old(hooksNeedCompile), calls(mapstructure.ComposeDecodeHookFunc) == 1 && compiledHook == result_of(mapstructure.ComposeDecodeHookFunc, 0)) && imp(!old(hooksNeedCompile), compiledHook == old(compiledHook))
 //@ at call mapstructure.ComposeDecodeHookFunc assert [all-current-hooks-in-order] arg(fs) == hooks
 //@ modifies hooksNeedCompile, compiledHook
+
+// ---------------------------------------------------------------- the remaining hooks and validations
+
+// min-size / max-size: the field must be a data size and the tag parameter a parsable size; anything else fails validation.
+//@ func getSizeForValidation
+//@ props C17
+//@ modifies nothing
+//@ ensures [unparsable-parameter-fails] imp(result_of(check.UnmarshalText, 0) != nil, !ok)
+//@ ensures [only-data-sizes] iff(ok, result_of(check.UnmarshalText, 0) == nil && typeis(v, datasize.ByteSize))
+//@ ensures [the-field-s-own-value] imp(ok, actual == v.(datasize.ByteSize))
+
+// Debugging the decoder never changes what is decoded.
+//@ func DebugHook
+//@ props C17
+//@ ensures [values-pass-through-untouched] p == data && err == nil
+
+// Text of a type that can unmarshal itself is handed to that type; every other value, and every other target, passes through;
+// an unmarshalling failure fails the decoding.
+//@ func TextUnmarshallerHook
+//@ props C17
+//@ nilsafe
+//@ may_panic true
+//@ requires f != nil && t != nil
+//@ env [mapstructure-passes-the-type-of-the-data] imp(f.Kind() == reflect.String, typeis(data, string))
+//@ ensures [other-values-pass-through] imp(f.Kind() != reflect.String, result0 == data && result1 == nil)
+//@ ensures [unmarshalling-failure-is-an-error] imp(calls(unmarhsallText) == 1, result1 == result_of(unmarhsallText, 0))
+//@ ensures [other-targets-pass-through] imp(calls(unmarhsallText) == 0, result0 == data && result1 == nil)
+//@ ensures [unmarshalled-at-most-once] calls(unmarhsallText) <= 1
+//@ at call unmarhsallText assert [the-text-as-given] arg(data) == data0
+
+//@ func unmarhsallText
+//@ props C17
+//@ may_panic true
+//@ requires [text] typeis(data, string)
+//@ at return v.Interface assume [the-caller-made-the-value-of-a-type-it-checked-with-Implements] typeis(result_of(v.Interface, 0), encoding.TextUnmarshaler)
+//@ ensures [the-type-s-own-verdict] calls(unmarshaller.UnmarshalText) == 1 && result == result_of(unmarshaller.UnmarshalText, 0)
+
+// A string validation applied to a field: only strings can be valid.
+//@ func StringToAbstractValidation
+//@ props C17
+//@ modifies nothing
+//@ ensures result != nil
+
+// Copying one configuration struct into another (compatibility helper): strict in both directions, any mismatch panics.
+//@ func Map
+//@ props C17
+//@ may_panic true
+//@ at call mapstructure.NewDecoder#0 assert [strict-into-the-destination] arg(config).ErrorUnused && arg(config).ZeroFields && arg(config).Result == dst0
+//@ at call mapstructure.NewDecoder#1 assert [strict-out-of-the-source] arg(config).ErrorUnused && arg(config).TagName == "map"
+//@ at call s.Decode assert [the-source] arg(a0) == src0
+
+//@ func URLPathStringValidation
+//@ props C17
+//@ ensures result == result_of(pathRegexp.MatchString, 0)
+//@ at call pathRegexp.MatchString assert arg(a0) == value0
+
+//@ func RegisterCustom
+//@ props C17
+//@ may_panic len(types) < 1
+//@ at call defaultValidator.RegisterStructValidation assert [for-the-given-types] arg(a1) == types0
+
+//@ func RegisterCustom#lit0
+//@ props C17
+//@ may_panic true
+//@ ensures [the-registered-validation-runs-once] calls(v) == 1
